@@ -127,8 +127,9 @@ def run_scenarios(job):
         r.shuffle(plans)
         if job.get("max_plans"):
             # keep the cuts that follow a workspace modification first: they are the interesting ones
-            hot = [p for p in plans if p[0][0] == "cut" and p[0][1] >= 2 and
-                   resR["log"][p[0][1] - 2][0] in ("emptyDir", "run", "mkDir", "setAttic")]
+            hot = [p for p in plans if p[0][0] == "fault" or (p[0][0] == "cut" and p[0][1] >= 2 and
+                   resR["log"][p[0][1] - 2][0] in ("emptyDir", "run", "mkDir", "setAttic"))]
+            r.shuffle(hot)
             rest = [p for p in plans if p not in hot]
             plans = (hot + rest)[:job["max_plans"]]
         chains = []
